@@ -664,11 +664,18 @@ func raceBodies(reps int) {
 			callIndex(w, "PbigS.ApplyIndentWithOptions(wideDoc, tab) [result > 1 KiB]"), callIndex(w, "Ps.ApplyIndent(docS)"), callIndex(w, "PbigS.ApplyIndent(wideDoc) [result > 1 KiB]")}, false},
 		scenario{"CreateMergePatch big ok | big malformed | big ok", []int{callIndex(w, "CreateMergePatch(bigA,bigB) [5 KB documents]"), callIndex(w, "CreateMergePatch(bigBad,bigB) [5 KB, first malformed]"), callIndex(w, "CreateMergePatch(bigA,bigB) [5 KB documents]")}, false},
 		scenario{"three indents of one 78 KB document, one patch, one options value", []int{callIndex(w, "P64.ApplyIndentWithOptions(doc64K, compact, SHARED opts)"), callIndex(w, "P64.ApplyIndentWithOptions(doc64K, two blanks, SHARED opts)"), callIndex(w, "P64.ApplyIndentWithOptions(doc64K, tab, SHARED opts)")}, false},
+		scenario{"6 x Equal on a 3000-deep document (limits are per call, not per process)", func() []int {
+			i := callIndex(w, "Equal(deep3k,deep3k) [nesting 3000: several at once exceed any process-wide depth budget]")
+			return []int{i, i, i, i, i, i}
+		}(), false},
 		scenario{"legacy Apply | legacy Apply | legacy MergePatch", []int{callIndex(w, "legacy Lp.Apply(docObj)"), callIndex(w, "legacy Lp.Apply(docObj)"), callIndex(w, "legacy MergePatch(docObj,mp1)")}, false})
 	mism := 0
 	runs := 0
 	for r := 0; r < reps; r++ {
 		for _, sc := range scs {
+			if strings.HasPrefix(sc.name, "6 x Equal on a 3000-deep") && r%20 != 0 {
+				continue // milliseconds per call, far more under the race detector: twice per pass
+			}
 			if r%4 == 0 || !sc.warm {
 				coldReset()
 			}
